@@ -182,7 +182,7 @@ def check(ctx, report):
     from .c05 import scsv_tabulation
     hello = model.try_cls('TlsHandshakeClientHello')
     if hello is not None and hello.methods.get('_parse') is not None and hello.methods.get('compose') is not None:
-        if not scsv_tabulation(ctx, report, hello, hello.methods['_parse'], hello.methods['compose'], RULE='C01.R10'):
+        if not scsv_tabulation(ctx, report, hello, hello.resolve('_parse'), hello.resolve('compose'), RULE='C01.R10'):
             report.undecided.append('C01.R10: the client hello left the subset the tabulation understands (C05.R3 reads its shape)')
     equality(ctx, report)
     clock_defaults(ctx, report)
@@ -480,7 +480,7 @@ def equality(ctx, report, RULE='C01.R9'):
         for k in chain:
             if '__eq__' in k.methods:
                 provider = k
-                body = k.methods['__eq__'].node
+                body = k.resolve('__eq__').node
                 txt = ast.unparse(body)
                 compared = None if ('__dict__' in txt or '.compose()' in txt or 'attr.astuple' in txt or 'attr.asdict' in txt) else self_attrs(body)
                 break
